@@ -196,6 +196,8 @@ func runC12(c *Checker) {
 	// callback and would wait for that mutex for ever (LOCKBAL, as C05/C11)
 	ruleLOCKBAL(c, targetMbox)
 	ruleHandshakeCtx(c)
+	ruleCtorCleanup(c)
+	ruleListenerClose(c)
 	w := c.w
 	gclose := w.Func("(*gbn.GoBackNConn).Close")
 	conn := w.Named("gbn.GoBackNConn")
